@@ -213,7 +213,7 @@ def round_case(rec, label, x, eps, rmax):
             scale = 1.0
             for c in x.cores:
                 scale *= max(float(tn.linalg.norm(c.reshape(-1))), 1e-300)
-            if err > eps * nrm * (1 + 1e-7) + 200 * meps * max(nrm, scale) * math.sqrt(max(d, 1)) + 1e-300:
+            if not (err <= eps * nrm * (1 + 1e-7) + 200 * meps * max(nrm, scale) * math.sqrt(max(d, 1)) + 1e-300):      # NaN-safe
                 return "error %.6g exceeds eps*||x|| = %.6g (eps=%g, ranks %s -> %s)" % (err, eps * nrm, eps, Rb, R)
         box["reduced"] = R != Rb
         return None
